@@ -1,1 +1,526 @@
-pub const PLACEHOLDER: u8 = 0;
+//! Accumulator models for the explicit-state searches (C09, C20): a uniform view of the
+//! eight incremental state types of stats-ci, each paired with a boring reference model
+//! (the list of observations delivered to the register).
+
+use mc::exact::{exact_stats, ExactStats};
+use mc::{json, Kind, Sink, Value};
+use stats_ci::comparison::{Paired, Unpaired};
+use stats_ci::mean::{Arithmetic, Geometric, Harmonic};
+use stats_ci::{proportion, quantile, Interval, StatisticsOps};
+use std::fmt::Debug;
+
+use crate::{conf, Fl};
+
+/// one observation delivered to a register
+#[derive(Clone, Copy, Debug, PartialEq, PartialOrd, serde::Serialize, serde::Deserialize)]
+pub enum Obs {
+    /// a value for a one-sample statistic
+    V(f64),
+    /// a pair (paired comparison, or append_pair of an unpaired one)
+    P(f64, f64),
+    /// a value for side a / side b of an unpaired comparison
+    A(f64),
+    B(f64),
+    /// a boolean outcome
+    T(bool),
+    /// an (anonymous) element counted by quantile::Stats
+    U,
+}
+
+pub const QCONFS: [(Kind, f64); 3] = [(Kind::Two, 0.95), (Kind::Upper, 0.9), (Kind::Lower, 0.25)];
+
+pub trait Acc: Clone + Debug + Send + Sync + 'static {
+    const NAME: &'static str;
+    fn new() -> Self;
+    /// observation alphabet (first entries are used for chunks)
+    fn alphabet() -> Vec<Obs>;
+    fn append(&mut self, o: Obs);
+    /// the chunk API(s) of the type (extend / extend_tuple / extend_a+extend_b ...)
+    fn extend(&mut self, os: &[Obs]);
+    fn from_iter(os: &[Obs]) -> Self;
+    fn add(&self, rhs: &Self) -> Self;
+    fn add_assign(&mut self, rhs: &Self);
+    /// every observer, rendered injectively (bit patterns)
+    fn queries(&self) -> Vec<String>;
+    /// invariant of one register against its model (delivery order)
+    fn check(&self, model: &[Obs], case: &dyn Fn() -> Value, s: &mut Sink);
+}
+
+fn bits(x: f64) -> String {
+    format!("{:016x}", x.to_bits())
+}
+
+fn iv_bits<F: Fl>(r: &stats_ci::CIResult<Interval<F>>) -> String {
+    match r {
+        Ok(iv) => {
+            let (k, l, h) = crate::shape(iv);
+            format!("{}[{},{}]", k.name(), bits(l), bits(h))
+        }
+        Err(e) => format!("Err({})", crate::err_name(e)),
+    }
+}
+
+/// tolerance for comparing a statistic of two runs over the same multiset
+fn tol_mean<F: Fl>(e: &ExactStats) -> f64 {
+    8.0 * F::U * e.sum_abs_f() / e.n.max(1) as f64 + f64::MIN_POSITIVE
+}
+
+fn vals(model: &[Obs]) -> Vec<f64> {
+    model
+        .iter()
+        .filter_map(|o| match o {
+            Obs::V(x) => Some(*x),
+            _ => None,
+        })
+        .collect()
+}
+
+/// shared invariant for the mean-type registers: `t` maps an observation into the space
+/// in which the register accumulates (identity, ln, 1/x, difference)
+#[allow(clippy::too_many_arguments)]
+fn check_mean_like<F: Fl>(
+    name: &str,
+    count: usize,
+    mean_t: Option<f64>,
+    ci: &dyn Fn(Kind, f64) -> stats_ci::CIResult<Interval<F>>,
+    batch_ci: &dyn Fn(Kind, f64) -> stats_ci::CIResult<Interval<F>>,
+    tvals: &[f64],
+    back: &dyn Fn(f64) -> f64,
+    case: &dyn Fn() -> Value,
+    s: &mut Sink,
+) {
+    let n = tvals.len();
+    if count != n {
+        s.violation(format!("{name}/count"), format!("sample_count {count} but {n} observations were delivered"), case());
+    }
+    if n == 0 {
+        return;
+    }
+    let e = exact_stats(tvals);
+    if let Some(m) = mean_t {
+        // mean in the transformed space
+        if !((m - e.mean_f()).abs() <= tol_mean::<F>(&e) + 4.0 * F::U * m.abs()) {
+            s.violation(format!("{name}/mean"), format!("mean (accumulation space) {m:?}, exact {:?} over {n} observations", e.mean_f()), case());
+        }
+    }
+    if n < 2 {
+        // ci must be a documented error, not a panic (C11's domain); count only
+        return;
+    }
+    let eps = 16.0 * F::U * e.cond_sumsq();
+    for (kind, level) in QCONFS {
+        let (got, want) = (ci(kind, level), batch_ci(kind, level));
+        s.calls += 2;
+        match (&got, &want) {
+            (Ok(g), Ok(w)) => {
+                let (gk, gl, gh) = crate::shape(g);
+                let (wk, wl, wh) = crate::shape(w);
+                if gk != wk {
+                    s.violation(format!("{name}/ci-kind"), format!("{g:?} vs batch {w:?}"), case());
+                    continue;
+                }
+                if !(eps <= 1e-2) {
+                    s.skipped += 1;
+                    continue;
+                }
+                for (x, y) in [(gl, wl), (gh, wh)] {
+                    if x.is_infinite() || y.is_infinite() || x == y {
+                        if x != y {
+                            s.violation(format!("{name}/ci-differs-from-batch"), format!("{g:?} vs batch {w:?}"), case());
+                        }
+                        continue;
+                    }
+                    // compare in the accumulation space
+                    let (tx, ty) = (back(x), back(y));
+                    let h = (ty - e.mean_f()).abs();
+                    let tol = 2.0 * (tol_mean::<F>(&e) + h * 2.0 * eps + 4.0 * F::U * ty.abs()) + 16.0 * F::U * (1.0 + ty.abs()) * if name.starts_with("Arith") || name.starts_with("Paired") || name.starts_with("Unpaired") { 0.0 } else { 1.0 };
+                    s.max(&format!("merge_vs_batch_dev_over_tol[{name}]"), (tx - ty).abs() / tol, || format!("{g:?} vs {w:?}"));
+                    if !((tx - ty).abs() <= tol) {
+                        s.violation(format!("{name}/ci-differs-from-batch"), format!("history gives {g:?}, one batch computation over the same {n} observations gives {w:?}"), case());
+                    }
+                }
+            }
+            (Err(a), Err(b)) if crate::err_name(a) == crate::err_name(b) => {}
+            _ => s.violation(format!("{name}/ci-outcome-differs-from-batch"), format!("{got:?} vs batch {want:?}"), case()),
+        }
+    }
+}
+
+macro_rules! mean_acc {
+    ($ty:ident, $f:ty, $name:expr, $alpha:expr, $fwd:expr, $back:expr) => {
+        impl Acc for $ty<$f> {
+            const NAME: &'static str = $name;
+            fn new() -> Self {
+                <$ty<$f>>::new()
+            }
+            fn alphabet() -> Vec<Obs> {
+                $alpha.iter().map(|&x| Obs::V(x)).collect()
+            }
+            fn append(&mut self, o: Obs) {
+                if let Obs::V(x) = o {
+                    StatisticsOps::append(self, x as $f).unwrap();
+                }
+            }
+            fn extend(&mut self, os: &[Obs]) {
+                let v: Vec<$f> = vals(os).iter().map(|&x| x as $f).collect();
+                StatisticsOps::extend(self, &v).unwrap();
+            }
+            fn from_iter(os: &[Obs]) -> Self {
+                let v: Vec<$f> = vals(os).iter().map(|&x| x as $f).collect();
+                <$ty<$f> as StatisticsOps<$f>>::from_iter(&v).unwrap()
+            }
+            fn add(&self, rhs: &Self) -> Self {
+                *self + *rhs
+            }
+            fn add_assign(&mut self, rhs: &Self) {
+                *self += *rhs;
+            }
+            fn queries(&self) -> Vec<String> {
+                let mut q = vec![format!("count={}", self.sample_count())];
+                if self.sample_count() >= 1 {
+                    q.push(format!("mean={}", bits(self.sample_mean() as f64)));
+                }
+                if self.sample_count() >= 2 {
+                    q.push(format!("sem={}", bits(self.sample_sem() as f64)));
+                    for (k, l) in QCONFS {
+                        q.push(iv_bits(&self.ci_mean(conf(k, l))));
+                    }
+                }
+                q
+            }
+            fn check(&self, model: &[Obs], case: &dyn Fn() -> Value, s: &mut Sink) {
+                let fwd: fn($f) -> $f = $fwd;
+                let back: fn(f64) -> f64 = $back;
+                let xs: Vec<$f> = vals(model).iter().map(|&x| x as $f).collect();
+                let tv: Vec<f64> = xs.iter().map(|&x| fwd(x) as f64).collect();
+                let mut sorted = xs.clone();
+                sorted.sort_by(|a, b| a.partial_cmp(b).unwrap());
+                let batch = if sorted.is_empty() { <$ty<$f>>::new() } else { <$ty<$f> as StatisticsOps<$f>>::from_iter(&sorted).unwrap() };
+                let mean_t = if xs.is_empty() { None } else { Some(back(self.sample_mean() as f64)) };
+                check_mean_like::<$f>(Self::NAME, self.sample_count(), mean_t, &|k, l| self.ci_mean(conf(k, l)), &|k, l| batch.ci_mean(conf(k, l)), &tv, &back, case, s);
+            }
+        }
+    };
+}
+
+const MEAN_ALPHA: [f64; 4] = [0.1, 1048576.0, -2.5, 1.0];
+const POS_ALPHA: [f64; 4] = [0.1, 1024.0, 3.7, 0.5];
+
+mean_acc!(Arithmetic, f64, "Arithmetic<f64>", MEAN_ALPHA, |x| x, |x| x);
+mean_acc!(Arithmetic, f32, "Arithmetic<f32>", MEAN_ALPHA, |x| x, |x| x);
+mean_acc!(Geometric, f64, "Geometric<f64>", POS_ALPHA, |x| x.ln(), |x| x.ln());
+mean_acc!(Harmonic, f64, "Harmonic<f64>", POS_ALPHA, |x| 1.0 / x, |x| 1.0 / x);
+mean_acc!(Geometric, f32, "Geometric<f32>", POS_ALPHA, |x| x.ln(), |x| x.ln());
+mean_acc!(Harmonic, f32, "Harmonic<f32>", POS_ALPHA, |x| 1.0 / x, |x| 1.0 / x);
+
+macro_rules! paired_acc {
+    ($f:ty, $name:expr) => {
+        impl Acc for Paired<$f> {
+            const NAME: &'static str = $name;
+            fn new() -> Self {
+                Paired::default()
+            }
+            fn alphabet() -> Vec<Obs> {
+                vec![Obs::P(0.1, 1048576.0), Obs::P(1048576.0, 0.3), Obs::P(-2.5, 1.0), Obs::P(1.0, 1.0)]
+            }
+            fn append(&mut self, o: Obs) {
+                if let Obs::P(a, b) = o {
+                    self.append_pair(a as $f, b as $f).unwrap();
+                }
+            }
+            fn extend(&mut self, os: &[Obs]) {
+                let (a, b): (Vec<$f>, Vec<$f>) = os.iter().filter_map(|o| if let Obs::P(x, y) = o { Some((*x as $f, *y as $f)) } else { None }).unzip();
+                if os.len() % 2 == 0 {
+                    self.extend(&a, &b).unwrap();
+                } else {
+                    let t: Vec<($f, $f)> = a.into_iter().zip(b).collect();
+                    self.extend_tuple(&t).unwrap();
+                }
+            }
+            fn from_iter(os: &[Obs]) -> Self {
+                let mut p = Paired::default();
+                Acc::extend(&mut p, os);
+                p
+            }
+            fn add(&self, rhs: &Self) -> Self {
+                self.clone() + rhs.clone()
+            }
+            fn add_assign(&mut self, rhs: &Self) {
+                *self += rhs.clone();
+            }
+            fn queries(&self) -> Vec<String> {
+                let mut q = vec![format!("count={}", self.sample_count())];
+                if self.sample_count() >= 1 {
+                    q.push(format!("mean={}", bits(self.sample_mean() as f64)));
+                }
+                if self.sample_count() >= 2 {
+                    q.push(format!("sem={}", bits(self.sample_sem() as f64)));
+                    for (k, l) in QCONFS {
+                        q.push(iv_bits(&self.ci_mean(conf(k, l))));
+                    }
+                }
+                q
+            }
+            fn check(&self, model: &[Obs], case: &dyn Fn() -> Value, s: &mut Sink) {
+                let d: Vec<$f> = model.iter().filter_map(|o| if let Obs::P(x, y) = o { Some(*x as $f - *y as $f) } else { None }).collect();
+                let tv: Vec<f64> = d.iter().map(|&x| x as f64).collect();
+                let mut sorted = d.clone();
+                sorted.sort_by(|a, b| a.partial_cmp(b).unwrap());
+                let batch = if sorted.is_empty() { Arithmetic::<$f>::new() } else { <Arithmetic<$f> as StatisticsOps<$f>>::from_iter(&sorted).unwrap() };
+                let mean_t = if d.is_empty() { None } else { Some(self.sample_mean() as f64) };
+                check_mean_like::<$f>(Self::NAME, self.sample_count(), mean_t, &|k, l| self.ci_mean(conf(k, l)), &|k, l| batch.ci_mean(conf(k, l)), &tv, &|x| x, case, s);
+            }
+        }
+    };
+}
+paired_acc!(f64, "Paired<f64>");
+paired_acc!(f32, "Paired<f32>");
+
+macro_rules! unpaired_acc {
+    ($f:ty, $name:expr) => {
+        impl Acc for Unpaired<$f> {
+            const NAME: &'static str = $name;
+            fn new() -> Self {
+                Unpaired::default()
+            }
+            fn alphabet() -> Vec<Obs> {
+                // distinct value sets for the two sides, so that a mix-up is visible
+                vec![Obs::A(0.1), Obs::B(1048576.0), Obs::A(-2.5), Obs::B(7.0), Obs::P(1.0, 64.0)]
+            }
+            fn append(&mut self, o: Obs) {
+                match o {
+                    Obs::A(x) => self.append_a(x as $f).unwrap(),
+                    Obs::B(x) => self.append_b(x as $f).unwrap(),
+                    Obs::P(x, y) => self.append_pair(x as $f, y as $f).unwrap(),
+                    _ => {}
+                }
+            }
+            fn extend(&mut self, os: &[Obs]) {
+                let (a, b) = sides::<$f>(os);
+                match os.len() % 3 {
+                    0 => self.extend(&a, &b).unwrap(),
+                    1 => {
+                        self.extend_a(&a).unwrap();
+                        self.extend_b(&b).unwrap();
+                    }
+                    _ => {
+                        StatisticsOps::extend(self.stats_b_mut(), &b).unwrap();
+                        StatisticsOps::extend(self.stats_a_mut(), &a).unwrap();
+                    }
+                }
+            }
+            fn from_iter(os: &[Obs]) -> Self {
+                let (a, b) = sides::<$f>(os);
+                if os.len() % 2 == 0 {
+                    Unpaired::from_iter(&a, &b).unwrap()
+                } else {
+                    Unpaired::new(<Arithmetic<$f> as StatisticsOps<$f>>::from_iter(&a).unwrap(), <Arithmetic<$f> as StatisticsOps<$f>>::from_iter(&b).unwrap())
+                }
+            }
+            fn add(&self, rhs: &Self) -> Self {
+                self.clone() + rhs.clone()
+            }
+            fn add_assign(&mut self, rhs: &Self) {
+                *self += rhs.clone();
+            }
+            fn queries(&self) -> Vec<String> {
+                let (na, nb) = (self.stats_a().sample_count(), self.stats_b().sample_count());
+                let mut q = vec![format!("counts={na},{nb}")];
+                if na >= 1 {
+                    q.push(format!("mean_a={}", bits(self.stats_a().sample_mean() as f64)));
+                }
+                if nb >= 1 {
+                    q.push(format!("mean_b={}", bits(self.stats_b().sample_mean() as f64)));
+                }
+                if na >= 2 && nb >= 2 {
+                    for (k, l) in QCONFS {
+                        q.push(iv_bits(&self.ci_mean(conf(k, l))));
+                    }
+                }
+                q
+            }
+            fn check(&self, model: &[Obs], case: &dyn Fn() -> Value, s: &mut Sink) {
+                let (a, b) = sides::<$f>(model);
+                // each side is an arithmetic register fed with its own observations only
+                let side = |name: &str, st: &Arithmetic<$f>, xs: &Vec<$f>, s: &mut Sink| {
+                    let tv: Vec<f64> = xs.iter().map(|&x| x as f64).collect();
+                    let mut sorted = xs.clone();
+                    sorted.sort_by(|p, q| p.partial_cmp(q).unwrap());
+                    let batch = if sorted.is_empty() { Arithmetic::<$f>::new() } else { <Arithmetic<$f> as StatisticsOps<$f>>::from_iter(&sorted).unwrap() };
+                    let mean_t = if xs.is_empty() { None } else { Some(st.sample_mean() as f64) };
+                    check_mean_like::<$f>(&format!("{}::{name}", Self::NAME), st.sample_count(), mean_t, &|k, l| st.ci_mean(conf(k, l)), &|k, l| batch.ci_mean(conf(k, l)), &tv, &|x| x, case, s);
+                };
+                side("stats_a", self.stats_a(), &a, s);
+                side("stats_b", self.stats_b(), &b, s);
+                // the comparison interval against one batch computation
+                if a.len() >= 2 && b.len() >= 2 {
+                    let (mut sa, mut sb) = (a.clone(), b.clone());
+                    sa.sort_by(|p, q| p.partial_cmp(q).unwrap());
+                    sb.sort_by(|p, q| p.partial_cmp(q).unwrap());
+                    let (ea, eb) = (exact_stats(&a.iter().map(|&x| x as f64).collect::<Vec<_>>()), exact_stats(&b.iter().map(|&x| x as f64).collect::<Vec<_>>()));
+                    let eps = 3.0 * 16.0 * <$f as Fl>::U * (ea.cond_sumsq().min(1e300) + eb.cond_sumsq().min(1e300));
+                    for (kind, level) in QCONFS {
+                        s.calls += 2;
+                        let got = self.ci_mean(conf(kind, level));
+                        let want = Unpaired::<$f>::ci(conf(kind, level), &sa, &sb);
+                        match (&got, &want) {
+                            (Ok(g), Ok(w)) => {
+                                let (gk, gl, gh) = crate::shape(g);
+                                let (wk, wl, wh) = crate::shape(w);
+                                let d = ea.mean_f() - eb.mean_f();
+                                let ok = gk == wk
+                                    && [(gl, wl), (gh, wh)].iter().all(|&(x, y)| {
+                                        x == y || (!(eps <= 1e-2)) || (x - y).abs() <= 2.0 * (tol_mean::<$f>(&ea) + tol_mean::<$f>(&eb) + (y - d).abs() * 2.0 * eps + 4.0 * <$f as Fl>::U * y.abs())
+                                    });
+                                if !ok {
+                                    s.violation(format!("{}/ci-differs-from-batch", Self::NAME), format!("history gives {g:?}, batch Unpaired::ci gives {w:?}"), case());
+                                }
+                            }
+                            (Err(x), Err(y)) if crate::err_name(x) == crate::err_name(y) => {}
+                            _ => s.violation(format!("{}/ci-outcome-differs-from-batch", Self::NAME), format!("{got:?} vs {want:?}"), case()),
+                        }
+                    }
+                }
+            }
+        }
+    };
+}
+
+fn sides<F: Fl>(os: &[Obs]) -> (Vec<F>, Vec<F>) {
+    let (mut a, mut b) = (vec![], vec![]);
+    for o in os {
+        match o {
+            Obs::A(x) => a.push(F::of(*x)),
+            Obs::B(x) => b.push(F::of(*x)),
+            Obs::P(x, y) => {
+                a.push(F::of(*x));
+                b.push(F::of(*y));
+            }
+            _ => {}
+        }
+    }
+    (a, b)
+}
+unpaired_acc!(f64, "Unpaired<f64>");
+unpaired_acc!(f32, "Unpaired<f32>");
+
+impl Acc for proportion::Stats {
+    const NAME: &'static str = "proportion::Stats";
+    fn new() -> Self {
+        proportion::Stats::default()
+    }
+    fn alphabet() -> Vec<Obs> {
+        vec![Obs::T(true), Obs::T(false)]
+    }
+    fn append(&mut self, o: Obs) {
+        match o {
+            Obs::T(true) => self.add_success(),
+            Obs::T(false) => self.add_failure(),
+            _ => {}
+        }
+    }
+    fn extend(&mut self, os: &[Obs]) {
+        let v: Vec<bool> = os.iter().filter_map(|o| if let Obs::T(b) = o { Some(*b) } else { None }).collect();
+        if os.len() % 2 == 0 {
+            self.extend(&v);
+        } else {
+            let ints: Vec<i32> = v.iter().map(|b| *b as i32).collect();
+            self.extend_if(&ints, |x| *x == 1);
+        }
+    }
+    fn from_iter(os: &[Obs]) -> Self {
+        <proportion::Stats as FromIterator<bool>>::from_iter(os.iter().filter_map(|o| if let Obs::T(b) = o { Some(*b) } else { None }))
+    }
+    fn add(&self, rhs: &Self) -> Self {
+        *self + *rhs
+    }
+    fn add_assign(&mut self, rhs: &Self) {
+        *self += *rhs;
+    }
+    fn queries(&self) -> Vec<String> {
+        let mut q = vec![format!("n={} k={}", self.population(), self.successes()), format!("significant={}", self.is_significant())];
+        for (k, l) in QCONFS {
+            q.push(iv_bits(&self.ci(conf(k, l))));
+        }
+        q
+    }
+    fn check(&self, model: &[Obs], case: &dyn Fn() -> Value, s: &mut Sink) {
+        let n = model.len();
+        let k = model.iter().filter(|o| matches!(o, Obs::T(true))).count();
+        // exactly the component-wise sum
+        if *self != proportion::Stats::new(n, k) || self.population() != n || self.successes() != k {
+            s.violation("proportion::Stats/not-the-componentwise-sum", format!("{self:?} after delivering {n} outcomes with {k} successes"), case());
+        }
+        for (kind, level) in QCONFS {
+            s.calls += 2;
+            let (a, b) = (self.ci(conf(kind, level)), proportion::ci(conf(kind, level), n, k));
+            if iv_bits(&a) != iv_bits(&b) {
+                s.violation("proportion::Stats/ci-differs-from-batch", format!("{a:?} vs proportion::ci({n},{k}) = {b:?}"), case());
+            }
+        }
+    }
+}
+
+impl Acc for quantile::Stats {
+    const NAME: &'static str = "quantile::Stats";
+    fn new() -> Self {
+        quantile::Stats::default()
+    }
+    fn alphabet() -> Vec<Obs> {
+        vec![Obs::U]
+    }
+    fn append(&mut self, o: Obs) {
+        if o == Obs::U {
+            // the only way to grow a quantile::Stats is merging with a population
+            *self += quantile::Stats::new(1);
+        }
+    }
+    fn extend(&mut self, os: &[Obs]) {
+        *self = *self + quantile::Stats::new(os.len());
+    }
+    fn from_iter(os: &[Obs]) -> Self {
+        quantile::Stats::new(os.len())
+    }
+    fn add(&self, rhs: &Self) -> Self {
+        *self + *rhs
+    }
+    fn add_assign(&mut self, rhs: &Self) {
+        *self += *rhs;
+    }
+    fn queries(&self) -> Vec<String> {
+        let mut q = vec![format!("{self:?}")];
+        for (k, l) in QCONFS {
+            for qu in [0.5, 0.25] {
+                q.push(match self.ci(conf(k, l), qu) {
+                    Ok(iv) => format!("{iv:?}"),
+                    Err(e) => format!("Err({})", crate::err_name(&e)),
+                });
+            }
+        }
+        q.push(format!("{:?}", self.index(0.5).ok()));
+        q
+    }
+    fn check(&self, model: &[Obs], case: &dyn Fn() -> Value, s: &mut Sink) {
+        let n = model.len();
+        if *self != quantile::Stats::new(n) {
+            s.violation("quantile::Stats/not-the-componentwise-sum", format!("{self:?} after {n} elements"), case());
+        }
+        for (kind, level) in QCONFS {
+            s.calls += 2;
+            let (a, b) = (self.ci(conf(kind, level), 0.5), quantile::ci_indices(conf(kind, level), n, 0.5));
+            let same = match (&a, &b) {
+                (Ok(x), Ok(y)) => x == y,
+                (Err(x), Err(y)) => crate::err_name(x) == crate::err_name(y),
+                _ => false,
+            };
+            if !same {
+                s.violation("quantile::Stats/ci-differs-from-batch", format!("{a:?} vs ci_indices({n}) = {b:?}"), case());
+            }
+        }
+    }
+}
+
+/// helper for replay files
+pub fn obs_json(os: &[Obs]) -> Value {
+    json!(os)
+}
